@@ -1,3 +1,70 @@
-// Names template instantiations only; contains no logic. Used so that clang's AST contains the
-// instantiated bodies of header-only templates of dsplib.
+// Names template instantiations only; contains no logic. It makes clang's AST contain the instantiated
+// bodies of dsplib's header-only templates (the same code every user TU instantiates).
 #include <dsplib.h>
+
+namespace dsplib {
+template class base_array<real_t>;
+// base_array<cmplx_t> cannot be instantiated explicitly: its unary operator-() does not compile
+// (base_array<T> r{_vec} selects the initializer_list constructor for T = cmplx_t); members are named below.
+template class const_slice_t<real_t>;
+template class slice_t<real_t>;
+template class const_slice_t<cmplx_t>;
+template class slice_t<cmplx_t>;
+template struct SliceIterator<real_t>;
+template struct SliceIterator<const real_t>;
+template struct SliceIterator<cmplx_t>;
+template struct SliceIterator<const cmplx_t>;
+}   // namespace dsplib
+
+namespace verif_driver {
+using namespace dsplib;
+
+// member-template operators: one use per (array type, operand type) combination
+void ops_rr(arr_real& a, const arr_real& b, real_t s) {
+    a += b; a -= b; a *= b; a /= b; a += s; a -= s; a *= s; a /= s;
+    (void)(a + b); (void)(a - b); (void)(a * b); (void)(a / b);
+    (void)(a + s); (void)(a - s); (void)(a * s); (void)(a / s);
+    (void)(s + a); (void)(s - a); (void)(s * a); (void)(s / a);
+    a |= b; (void)(a | b);
+}
+void ops_cc(arr_cmplx& a, const arr_cmplx& b, cmplx_t s) {
+    a += b; a -= b; a *= b; a /= b; a += s; a -= s; a *= s; a /= s;
+    (void)(a + b); (void)(a - b); (void)(a * b); (void)(a / b);
+    (void)(a + s); (void)(a - s); (void)(a * s); (void)(a / s);
+    (void)(s + a); (void)(s - a); (void)(s * a); (void)(s / a);
+    a |= b; (void)(a | b);
+}
+void ops_cr(arr_cmplx& a, const arr_real& b, real_t s) {
+    a += b; a -= b; a *= b; a /= b; a += s; a -= s; a *= s; a /= s;
+    (void)(a + b); (void)(a - b); (void)(a * b); (void)(a / b);
+    (void)(a + s); (void)(a - s); (void)(a * s); (void)(a / s);
+    (void)(s + a); (void)(s - a); (void)(s * a); (void)(s / a);
+    (void)(a | b);
+}
+void ops_rc(const arr_real& a, const arr_cmplx& b, cmplx_t s) {
+    (void)(a + b); (void)(a - b); (void)(a * b); (void)(a / b);
+    (void)(a + s); (void)(a - s); (void)(a * s); (void)(a / s);
+    (void)(s + a); (void)(s - a); (void)(s * a); (void)(s / a);
+    (void)(a | b);
+}
+void ops_int(const arr_real& a, const arr_cmplx& c, int k) {
+    (void)(a + k); (void)(a * k); (void)(k * a); (void)(k - a); (void)(k / a); (void)(c * k); (void)(k * c);
+}
+void scalars(cmplx_t a, cmplx_t b, real_t s, int k) {
+    (void)(s + a); (void)(s - a); (void)(s * a); (void)(s / a); (void)(k + a); (void)(k - a); (void)(k * a); (void)(k / a);
+}
+void members_c(arr_cmplx& a, const arr_cmplx& b, const std::vector<bool>& m, const std::vector<int>& ix) {
+    (void)a[0]; (void)b[0]; (void)a[size_t(0)]; (void)b[size_t(0)]; (void)b[m]; (void)b[ix]; (void)a(0); (void)b(0);
+    (void)a.slice(0, 1, 1); (void)b.slice(0, 1, 1); (void)a.slice(0, indexing::end); (void)b.slice(0, indexing::end);
+    (void)a.size(); (void)a.data(); (void)b.data(); (void)a.empty(); (void)(b == b); (void)(b != b); (void)(b == cmplx_t{});
+    arr_cmplx c(b.slice(0, 1)); arr_cmplx d(a.slice(0, 1)); arr_cmplx e(3); arr_cmplx f(b); f = b; f = std::move(e);
+    (void)b.to_vec(); (void)+b;
+}
+void stateful() {
+    LmsFilter<real_t> l1(4, 0.1); LmsFilter<cmplx_t> l2(4, 0.1);
+    RlsFilter<real_t> r1(4); RlsFilter<cmplx_t> r2(4);
+    (void)l1.process(arr_real(4), arr_real(4)); (void)l2.process(arr_cmplx(4), arr_cmplx(4));
+    (void)r1.process(arr_real(4), arr_real(4)); (void)r2.process(arr_cmplx(4), arr_cmplx(4));
+    Delay<real_t> d1(3); (void)d1.process(arr_real(4)); Delay<cmplx_t> d2(3); (void)d2.process(arr_cmplx(4));
+}
+}   // namespace verif_driver
